@@ -287,8 +287,9 @@ def h_metrics(ctx, ntrades=2, nbal=3, ratios=True, symbal=1, symstart=True, bals
     # ---- ratio metrics on the daily equity returns (365-day year) ----
     rets = [bal[i] / bal[i - 1] - 1 for i in range(1, nbal)]
     n = len(rets)
-    # max drawdown: min over t of (cumprod_t / running max) - 1, in percent
-    cum = []
+    # max drawdown (standard definition on the equity series): min over t of E_t / max_{s<=t} E_s - 1, in percent, where the series
+    # starts with the starting balance itself (wealth index 1 before the first return)
+    cum = [1.0]
     c = 1.0
     for r in rets:
         c = c * (1 + r)
@@ -298,7 +299,7 @@ def h_metrics(ctx, ntrades=2, nbal=3, ratios=True, symbal=1, symstart=True, bals
     for c in cum:
         rm = c if rm is None else sx.smax(rm, c)
         run.append(rm)
-    dd = mn([cum[i] / run[i] for i in range(n)]) - 1
+    dd = mn([cum[i] / run[i] for i in range(len(cum))]) - 1
     P(ctx.equal(m['max_drawdown'], dd * 100), 'max-drawdown-definition')
     P(m['max_drawdown'] <= 0, 'max-drawdown-never-positive')
     K = float(np.sqrt(365)) ** 2  # the code multiplies by the double sqrt(365): fold the constant the same way
